@@ -229,7 +229,8 @@ def ctype(t, name):
     return '%s %s' % (CT[t], name)
 
 
-CT = {'u8': 'unsigned char', 's8': 'signed char', 'u16': 'unsigned short', 's16': 'signed short'}
+CT = {'u8': 'unsigned char', 's8': 'signed char', 'u16': 'unsigned short', 's16': 'signed short',
+      'pc8': 'char', 'pi16': 'int', 'ps16': 'short'}          # spelling-only codes: the default signedness applies
 
 
 class Func:
